@@ -205,6 +205,15 @@ func checkChainValidator(c *Check, sp chainSpec) map[string]bool {
 	isSingle, notSingle := A("+Eq(1, len(p0))"), A("-Eq(1, len(p0))")
 	isLast, notLast := A("+Eq((len(p0) - 1), rk(p0))"), A("-Eq((len(p0) - 1), rk(p0))")
 	isLeaf, notLeaf := A("+Eq(0, rk(p0))"), A("-Eq(0, rk(p0))")
+	// the walk is entered only for chains of more than one certificate (the single-certificate
+	// case returns before it): then the last position is not position 0, tested or not
+	if body := edgeTargets(pg, RangeNext("p0")); len(body) > 0 {
+		if multi, _ := c.cut(pg, body, notSingle); multi {
+			if nonEmpty, _ := c.cut(pg, body, A("-Empty(p0)")); nonEmpty {
+				notLeaf = AnyOf(A("-Eq(0, rk(p0))"), isLast)
+			}
+		}
+	}
 
 	// --- A side --------------------------------------------------------------
 	c.mustPass(pg, R, "chain not empty", "accept requires a non-empty chain", accept, A("-Empty(p0)"))
